@@ -362,10 +362,13 @@ Print Assumptions C04_reachable_cycle_no_result.
 
 (* ---- with the real argument coercion (C07's model, Exec/CoerceModel.v) as
    the coerce_args parameter; isch: the input-side schema description, closed,
-   input types only, every argument type of every object field usable in it *)
+   input types only, its scalars' parsers raising nothing but ValueError /
+   TypeError (scalars_behaved), every argument type of every object field
+   usable in it *)
 Theorem C04_exec_terminates_with_C07_coercion :
   forall sch isch,
-    CoerceSpec.schema_closed isch -> CoerceSpec.schema_inputs isch -> args_usable sch isch ->
+    CoerceSpec.schema_closed isch -> CoerceSpec.schema_inputs isch -> CoerceSpec.scalars_behaved isch ->
+    args_usable sch isch ->
     forall frags vs world tyres rank,
       acyclic frags rank ->
       forall ss tname v p,
@@ -402,7 +405,8 @@ Print Assumptions C04_null_error_bijection_with_C07_coercion.
    and location -- it never crashes or diverges *)
 Theorem C04_argument_failure_with_C07_coercion :
   forall sch isch,
-    CoerceSpec.schema_closed isch -> CoerceSpec.schema_inputs isch -> args_usable sch isch ->
+    CoerceSpec.schema_closed isch -> CoerceSpec.schema_inputs isch -> CoerceSpec.scalars_behaved isch ->
+    args_usable sch isch ->
     forall vs world tyres sub_exec tn name k fd tname parent node nodes p,
       field_definition sch tn name = Ok (Some (k, fd)) ->
       (exists args, coerce_args_c07 isch vs fd node = Ok args) \/
@@ -506,11 +510,13 @@ Proof. vm_compute. split; reflexivity. Qed.
    (its fields take no arguments) with an input side of scalars *)
 Example C04_example_c07_premises :
   let isch : CoerceModel.schema := [(ex_s "Int", CoerceModel.TDScalar CoerceModel.KInt)] in
-  CoerceSpec.schema_closed isch /\ CoerceSpec.schema_inputs isch /\ args_usable ex_schema isch.
+  CoerceSpec.schema_closed isch /\ CoerceSpec.schema_inputs isch /\ CoerceSpec.scalars_behaved isch /\
+  args_usable ex_schema isch.
 Proof.
-  cbv zeta. split; [|split].
+  cbv zeta. split; [|split; [|split]].
   - intros n fs f H. cbn [alookup] in H. destruct (str_eqb n (ex_s "Int")); discriminate H.
   - intros n fs f H. cbn [alookup] in H. destruct (str_eqb n (ex_s "Int")); discriminate H.
+  - intros n k H. cbn [alookup] in H. destruct (str_eqb n (ex_s "Int")); [inversion H; reflexivity|discriminate H].
   - intros tn fs ifs f a Hg Hi Ha. unfold get_type in Hg. simpl in Hg.
     repeat match type of Hg with
            | (if ?b then _ else _) = _ => destruct b; [inversion Hg; subst; clear Hg|]
